@@ -41,7 +41,7 @@ def confirm(prop, src, name):
             shutil.copy(src / "demo.py", wt / "demo.py")
             demo_cmd = f"{WTPY} {wt} demo.py"
         elif (src / "run.sh").exists():
-            demo_cmd = f"sh {src / 'run.sh'} {wt}"             # build + run wrapper (added when build.sh only builds)
+            demo_cmd = f"bash {src / 'run.sh'} {wt}"             # build + run wrapper (added when build.sh only builds)
         elif (src / "build.sh").exists():
             demo_cmd = f"bash {src / 'build.sh'} {wt}"          # C++ demo: compiles the worktree's header standalone
         assert demo_cmd, "no demo"
